@@ -52,7 +52,14 @@ class Ctx:
         return self.tier == "thorough" or self.widened or bool(self.anchor_changed)
 
     def n(self, quick, thorough):
-        return thorough if self.big() else quick
+        """Sample size: the thorough size in the thorough tier; in the quick tier a widened search (after a broken
+        obligation / correspondence) or a changed anchored function raises the size four-fold, capped by the thorough
+        size - enough to re-validate the model where the code moved while keeping the quick tier within minutes."""
+        if self.tier == "thorough":
+            return thorough
+        if self.widened or self.anchor_changed:
+            return max(quick, min(thorough, quick * 4))
+        return quick
 
     # ---- bookkeeping
     def count(self, k=1, **dist):
